@@ -54,7 +54,7 @@ static inline bool inr(const Rng &g, double x) { return g.null || (x >= g.min &&
 static const double Q16 = 1.0 / 65536.0;
 
 struct Stats {
-	uint64_t calls, parts, cut, trim, both, shared, hidden, capped, join_ok, join_ref, join_spur, cxx_parts, poly_parts, poly_fail;
+	uint64_t calls, parts, cut, trim, both, shared, hidden, capped, join_ok, join_ref, join_spur, cxx_parts, poly_parts, poly_fail, poly_reused_hidden, poly_reused_visible;
 	uint64_t pair_reused, pair_first_empty, nolist_points, nolist_split, pair_gap, pair_unequal, pair_same_segment_ok, lost_crossings, pair_frac_checked, pair_frac_undefined, pair_frac_differ, hist_reset, pair_parts, pair_cut_and_trim2, pair_hidden_by_second, pair_poly_parts, pair_hist;
 	uint64_t nontrivial;
 };
@@ -340,56 +340,78 @@ static void drive_cxx(Case &c, bool with_poly)
 		for (auto &p : first) if (p.usr != p.raw) { ++c.st.hist_reset; break; }
 	}
 	if (!with_poly) return;
-	{
-		c.r.hint("polyline");
-		mpt::value_store vs;
+	// pre = 0: fresh polyline; pre = 1 (short inputs): the same polyline held a curve with visible points before (history)
+	for (int pre = 0; pre < (c.n <= 64 ? 2 : 1); ++pre) {
+		const char *stage = pre ? "polyline-reused" : "polyline";
+		c.r.hint(stage);
+		mpt::value_store vs, vs0;
 		if (!LIB(vs.set(src))) { c.r.count("polyline_store_failed"); return; }
 		mpt::polyline pl;
+		if (pre) {
+			std::vector<double> w;
+			for (int l = 0; l < c.g.n6; ++l) if (inr(c.g, c.g.val[l])) w.push_back(c.g.val[l]);
+			if (w.empty()) break;       // no visible value exists for this range
+			size_t m = w.size(); while (w.size() < c.n + 2) w.push_back(w[w.size() % m]);
+			if (!LIB(vs0.set(mpt::span<const double>(w.data(), w.size())))) { c.r.count("polyline_store_failed"); return; }
+			if (!LIB(pl.set(tr, mpt::span<const mpt::value_store>(&vs0, 1))) || (size_t) pl.points().size() != w.size()) { c.fail(stage, "refused", "preload", fmt("set() of %zu in-range values failed or stored %ld points", w.size(), (long) pl.points().size())); return; }
+			++c.r.transitions;
+		}
 		bool ok = LIB(pl.set(tr, mpt::span<const mpt::value_store>(&vs, 1)));
 		++c.r.transitions;
 		size_t visible = 0;
 		for (size_t i = 0; i < c.n; ++i) if (inr(c.g, c.v[i])) ++visible;
 		if (!ok) {
-			++c.st.poly_fail;
-			if (asan_error()) { c.fail("polyline", "memory", "asan", "access outside the value array (AddressSanitizer)"); return; }
-			if (visible) c.fail("polyline", "refused", "visible-points", fmt("set() failed although %zu values are in range", visible));
-			return;
+			if (!pre) ++c.st.poly_fail;
+			if (asan_error()) { c.fail(stage, "memory", "asan", "access outside the value array (AddressSanitizer)"); return; }
+			if (visible) { c.fail(stage, "refused", "visible-points", fmt("set() failed although %zu values are in range", visible)); return; }
+			// nothing visible: parts and point storage still describe the same data, walking the parts makes progress and ends
+			mpt::span<const linepart> hp = pl.parts();
+			unsigned long hu = 0, hr = 0; for (long i = 0; i < (long) hp.size(); ++i) { hu += hp.begin()[i].usr; hr += hp.begin()[i].raw; }
+			long np = (long) pl.points().size();
+			if ((unsigned long) np != hu) { c.fail(stage, "length", "points-nothing-visible", fmt("nothing visible: parts cover %lu drawn points, storage has %ld points", hu, np)); return; }
+			if (hp.size() && hr != c.n) { c.fail(stage, "length", "raw-nothing-visible", fmt("nothing visible: parts consume %lu of %zu values", hr, c.n)); return; }
+			long steps = 0, maxs = (long) hp.size() + 1;
+			for (mpt::polyline::iterator it = pl.begin(); it != pl.end(); ++it) if (++steps > maxs) break;
+			if (steps > maxs) { c.fail(stage, "no-progress", "iterator", fmt("nothing visible: walking %ld parts does not end after %ld steps", (long) hp.size(), steps)); return; }
+			if (pre) ++c.st.poly_reused_hidden;
+			continue;
 		}
+		if (pre) ++c.st.poly_reused_visible;
 		mpt::span<const linepart> sp = pl.parts();
 		ps.assign(sp.begin(), sp.begin() + sp.size());
-		if (!c.judge("polyline", ps, false)) return;
+		if (!c.judge(stage, ps, false)) return;
 		unsigned long su = 0; for (auto &p : ps) su += p.usr;
 		mpt::span<const mpt::polyline::point> pts = pl.points();
-		if ((unsigned long) pts.size() != su) { c.fail("polyline", "length", "points", fmt("%ld points for sum usr %lu", (long) pts.size(), su)); return; }
+		if ((unsigned long) pts.size() != su) { c.fail(stage, "length", "points", fmt("%ld points for sum usr %lu", (long) pts.size(), su)); return; }
 		// walk the parts through the iterator: points() = in-range values exactly, line() end points on the boundary
 		size_t k = 0, pos = 0, seen = 0;
 		for (mpt::polyline::iterator it = pl.begin(); it != pl.end() && k < ps.size(); ++it, ++k) {
 			mpt::polyline::part pt = *it;
 			mpt::span<const mpt::polyline::point> in = pt.points(), ln = pt.line();
 			const linepart &p = ps[k];
-			if ((size_t) ln.size() != p.usr) { c.fail("polyline", "length", "line", fmt("part %zu line() has %ld points, usr=%u", k, (long) ln.size(), p.usr)); return; }
+			if ((size_t) ln.size() != p.usr) { c.fail(stage, "length", "line", fmt("part %zu line() has %ld points, usr=%u", k, (long) ln.size(), p.usr)); return; }
 			size_t first = p._cut ? 1 : 0;
-			if ((size_t) in.size() != p.usr - first - (p._trim ? 1 : 0) || (in.size() && in.begin() != ln.begin() + first)) { c.fail("polyline", "length", "points", fmt("part %zu points() has %ld points for %s", k, (long) in.size(), part_str(p).c_str())); return; }
+			if ((size_t) in.size() != p.usr - first - (p._trim ? 1 : 0) || (in.size() && in.begin() != ln.begin() + first)) { c.fail(stage, "length", "points", fmt("part %zu points() has %ld points for %s", k, (long) in.size(), part_str(p).c_str())); return; }
 			for (size_t i = 0; i < (size_t) in.size(); ++i) {
 				double x = in.begin()[i].x, y = in.begin()[i].y;
-				if (x != c.v[pos + first + i] || y != 0) { c.fail("polyline", "point-value", "in-range", fmt("part %zu drawn point %zu is (%.17g,%.17g), value is %.17g", k, i, x, y, c.v[pos + first + i])); return; }
+				if (x != c.v[pos + first + i] || y != 0) { c.fail(stage, "point-value", "in-range", fmt("part %zu drawn point %zu is (%.17g,%.17g), value is %.17g", k, i, x, y, c.v[pos + first + i])); return; }
 				++seen;
 			}
 			double span, x, b;
 			if (p._cut) {
 				span = fabs(c.v[pos + 1] - c.v[pos]); x = ln.begin()[0].x; b = c.v[pos] < c.g.min ? c.g.min : c.g.max;
-				if (!(fabs(x - b) <= span * Q16 * (1 + 1e-6))) { c.fail("polyline", "cut-fraction", "off-by>2^-16", fmt("part %zu line starts at %.17g, boundary %.17g, segment %.17g -> %.17g", k, x, b, c.v[pos], c.v[pos + 1])); return; }
+				if (!(fabs(x - b) <= span * Q16 * (1 + 1e-6))) { c.fail(stage, "cut-fraction", "off-by>2^-16", fmt("part %zu line starts at %.17g, boundary %.17g, segment %.17g -> %.17g", k, x, b, c.v[pos], c.v[pos + 1])); return; }
 			}
 			if (p._trim) {
 				size_t e = pos + p.usr - 1;
 				span = fabs(c.v[e] - c.v[e - 1]); x = ln.begin()[p.usr - 1].x; b = c.v[e] < c.g.min ? c.g.min : c.g.max;
-				if (!(fabs(x - b) <= span * Q16 * (1 + 1e-6))) { c.fail("polyline", "trim-fraction", "off-by>2^-16", fmt("part %zu line ends at %.17g, boundary %.17g, segment %.17g -> %.17g", k, x, b, c.v[e - 1], c.v[e])); return; }
+				if (!(fabs(x - b) <= span * Q16 * (1 + 1e-6))) { c.fail(stage, "trim-fraction", "off-by>2^-16", fmt("part %zu line ends at %.17g, boundary %.17g, segment %.17g -> %.17g", k, x, b, c.v[e - 1], c.v[e])); return; }
 			}
 			pos += p.raw;
 		}
-		if (asan_error()) { c.fail("polyline", "memory", "asan", "walking the polyline accesses memory outside its arrays"); return; }
-		if (seen != visible) { c.fail("polyline", "inrange-not-drawn", "iterator", fmt("iterating the parts shows %zu of %zu in-range values", seen, visible)); return; }
-		c.st.poly_parts += ps.size();
+		if (asan_error()) { c.fail(stage, "memory", "asan", "walking the polyline accesses memory outside its arrays"); return; }
+		if (seen != visible) { c.fail(stage, "inrange-not-drawn", "iterator", fmt("iterating the parts shows %zu of %zu in-range values", seen, visible)); return; }
+		if (!pre) c.st.poly_parts += ps.size();
 	}
 }
 
@@ -949,7 +971,7 @@ static void flush_stats(Run &r, const Stats &st)
 	r.count("nolist_points_applied", st.nolist_points); r.count("nolist_runs_longer_than_65535", st.nolist_split); r.count("pair_polyline_skipped_middle_store_second_dimension_hides", st.pair_gap);
 	r.count("pair_polyline_reused_equals_fresh", st.pair_reused); r.count("pair_polyline_first_store_empty", st.pair_first_empty);
 	r.count("pair_fractions_checked", st.pair_frac_checked); r.count("pair_fractions_two_dimensions_cross_differently", st.pair_frac_differ); r.count("pair_fractions_undefined(not judged)", st.pair_frac_undefined);
-	r.count("cxx_array_parts", st.cxx_parts); r.count("polyline_parts", st.poly_parts); r.count("polyline_nothing_visible", st.poly_fail);
+	r.count("cxx_array_parts", st.cxx_parts); r.count("polyline_parts", st.poly_parts); r.count("polyline_nothing_visible", st.poly_fail); r.count("polyline_reused_after_visible_curve_nothing_visible", st.poly_reused_hidden); r.count("polyline_reused_after_visible_curve_visible", st.poly_reused_visible);
 }
 void mc_explore(Run &r, const std::string &job)
 {
@@ -958,7 +980,7 @@ void mc_explore(Run &r, const std::string &job)
 	                      "parts_at_limit(raw=65535)", "join_merged", "join_refused", "cxx_array_parts", "polyline_parts",
 	                      "array_history_reset_with_usr!=raw", "pair_parts", "pair_parts_cut_and_trim_usr=2", "pair_inputs_hidden_only_by_second_dimension", "pair_polyline_parts", "pair_history_reset_with_usr!=raw", "pair_fractions_checked", "pair_fractions_two_dimensions_cross_differently",
 	                      "pair_inputs_with_dimensions_of_different_length", "pair_parts_cut_and_trim_on_one_segment_nonempty",
-	                      "nolist_points_applied", "nolist_runs_longer_than_65535", "pair_polyline_reused_equals_fresh", "pair_polyline_first_store_empty", "pair_polyline_skipped_middle_store_second_dimension_hides"}) r.require(k);
+	                      "nolist_points_applied", "nolist_runs_longer_than_65535", "pair_polyline_reused_equals_fresh", "pair_polyline_first_store_empty", "pair_polyline_skipped_middle_store_second_dimension_hides", "polyline_reused_after_visible_curve_nothing_visible", "polyline_reused_after_visible_curve_visible"}) r.require(k);
 	if (job == "codes") { r.additive = true; r.enter(Vec(), "code"); code_job(r, st); ++r.executions; }
 	else dfs(r, [&](Ctx &x) { body(r, st, job, x); });
 	flush_stats(r, st);
